@@ -535,7 +535,7 @@ func c19DefaultDebugger(reuse bool) (debug.DefaultDebugger, *[]uint16) {
 func init() {
 	p := &mon.Property{
 		ID: "C19",
-		Rule: "Each program (node vectors, the C05 catalog, structured random programs, vector mutants, scripts-only and tx contexts) is executed four times: without debugger, with a recording Debugger, with a Debugger that overwrites/truncates/appends every stack slice and scalar of every State it receives, and with debug.NewDebugger carrying three attached functions per hook. " +
+		Rule: "Each program (node vectors, the C05 catalog, structured random programs, vector mutants, scripts-only and tx contexts) is executed four times: without debugger, with a recording Debugger, with a Debugger that overwrites/truncates/appends every stack slice and scalar of every State it receives, and with debug.NewDebugger carrying three attached functions per hook (for every other program one debugger object that serves one execution after another for the life of the process, otherwise a new one). " +
 			"Oracles: identical verdict and error text; identical callback streams (kind + hash of the snapshot and data argument) between the recording and the scribbling run; the stream is accepted by an automaton for the documented lifecycle with exactly one terminal callback matching the result; BeforeStep(k+1) state = AfterStep(k) state and stacks after each step equal the reference model's; attached functions fire first-attached-first and hooks in the same order. " +
 			"distinct_nontrivial = distinct programs with >= 12 callbacks on which every oracle agreed.",
 		Assum: []string{"the live []byte handed to stack callbacks and State.Scripts are not scribbled (the statement speaks of stack data inside a snapshot)",
